@@ -11,9 +11,9 @@ import (
 )
 
 func init() {
-	register("T-LITFMT", "literal tokens: the 17 documented types are each formatted by a routine of the right class (bare only for the default type of its constant kind, otherwise wrapped in a conversion; strings / runes / bytes only through Go-syntax quoting), the argument is the token's content and the result reaches the writer unmodified; a float64 gets \".0\" appended exactly when its text has neither '.' nor 'e'", 20, func(c *Ctx) []Obligation { return ruleTokenRender(c, "T-LITFMT") })
-	register("P-TOKEN", "non-literal tokens: keyword / operator / layout / delimiter tokens write their text, followed by ':' exactly for `default`; identifiers write their name; a package token writes exactly what the registration function returns for its path", 6, func(c *Ctx) []Obligation { return ruleTokenRender(c, "P-TOKEN") })
-	register("P-LITCTOR", "literal constructors store their parameter (or the callback's result) unmodified as the token content, with the matching token type", 6, ruleLitCtor)
+	register("T-LITFMT", "literal tokens: the 17 documented types are each formatted by a routine of the right class (bare only for the default type of its constant kind, otherwise wrapped in a conversion; strings / runes / bytes only through Go-syntax quoting), the argument is the token's content and the result reaches the writer unmodified; a float64 gets \".0\" appended exactly when its text has neither '.' nor 'e'", 20, func(c *Ctx) []Obligation { return rulePXTokenRender(c, "T-LITFMT") })
+	register("P-TOKEN", "non-literal tokens: keyword / operator / layout / delimiter tokens write their text, followed by ':' exactly for `default`; identifiers write their name; a package token writes exactly what the registration function returns for its path", 6, func(c *Ctx) []Obligation { return rulePXTokenRender(c, "P-TOKEN") })
+	register("P-LITCTOR", "literal constructors store their parameter (or the callback's result) unmodified as the token content, with the matching token type", 6, rulePXLitCtor)
 }
 
 func (c *Ctx) tokenRenderFn() *ssa.Function {
